@@ -46,7 +46,7 @@ EXHAUSTIVE = ("thorough: ALL histories of length <= 3 containing a torchjd call 
               "(28 steps for the backward family x 4 templates, 22 steps for the mtl family x 4 templates); ALL "
               "histories of length <= 2 containing a torchjd call over the extended mtl alphabet (k up to 3, probes "
               "of every task, agf) x 4 templates x every variant of VARIANTS (dead / empty / frozen patterns over 2 "
-              "and 3 tasks)")
+              "and 3 tasks); ALL 576 (first torchjd call, probe) pairs of the zero-element-tensor variant of the backward programs")
 
 BW_TEMPLATES = ["nosave", "save", "mixed", "private"]
 MTL_TEMPLATES = ["save_save", "nosave_nosave", "save_nosave", "nosave_save"]  # trunk_heads
@@ -138,6 +138,20 @@ def cases(tier, seed, focus=None):
                         yield {"fam": "mtl", "tpl": tpl, "steps": list(h), "agg": AGGS[i % 3], "seed": i % 17,
                                "dtype": "float64" if i % 4 else "float32", "var": var,
                                "cont": CONTAINERS[i % len(CONTAINERS)]}
+        # a zero-element tensor with a private saved-tensor graph among the tensors: every (tensors, retain, chunk) first call x
+        # every probe of one tensor
+        for tpl in BW_TEMPLATES:
+            # (not [2] alone: a Jacobian without any row is outside every property - the aggregators are specified for m >= 1 - and
+            # the unchanged library raises ZeroDivisionError / a vmap ValueError from Jac there; DESIGN section 5, observation O1)
+            for t in ([0, 1, 2], [2, 0], [1, 2]):
+                for r in (False, True):
+                    for k in (None, 1, 2, 3):
+                        for op in ("ag", "tb"):
+                            for pt in ([2], [0], [1]):
+                                i += 1
+                                yield {"fam": "bw", "tpl": tpl, "steps": [{"op": "jd", "t": t, "r": r, "k": k}, {"op": op, "t": pt, "r": False}],
+                                       "agg": AGGS[i % 3], "seed": i % 17, "dtype": "float64" if i % 4 else "float32",
+                                       "cont": CONTAINERS[i % len(CONTAINERS)], "var": {"dead": [0, 0], "empty_out": True}}
         return
     out = []
     rng2 = random.Random(13013000 + seed)  # stream of the later families (the earlier cases are kept as they were)
